@@ -266,7 +266,8 @@ class StmtMixin:
             r = self.aug_special(s, q, cur, rhs)
             if r is not None:
                 return r
-            return self.lift(self.binop(s.op, cur, rhs, q, s), lambda q2, v: self.assign(s.target, v, q2))
+            return self.lift(self.deopt(q, [cur, rhs], f"L{s.lineno}", lambda q3, un: self.binop(s.op, un[0], un[1], q3, s)),
+                             lambda q2, v: self.assign(s.target, v, q2))
         return self.lift(self.ev_list([load, s.value], p), k)
 
     def aug_special(self, s, p, cur, rhs):
@@ -341,6 +342,9 @@ class StmtMixin:
                     r = self.setattr_extra(q, obj, name, v, node)
                     if r is not None:
                         return r
+                    if self.classes[obj.cls].mod is not None:
+                        # undeclared slot: its reads are arbitrary anyway, so the store carries no information
+                        return [(q, NEXT)]
                     raise Unsupported(f"store to undeclared field {obj.cls}.{name} at {w}")
                 self.on_field_store(q, obj, name, v, node)
                 self.write_field(q, obj, name, self._fix_unknown_box(q, obj.cls, name, v))
@@ -470,7 +474,7 @@ class StmtMixin:
                             q2.ghost["$handling"] = None
                             after.append((q2, oc2))
                         break
-                    if any(exc_isinstance(n, exc.cls) for n in names) and exc.cls in ("AnyException", "Exception", "BaseException", "OSError"):
+                    if exc.cls == "AnyException" or (any(exc_isinstance(n, exc.cls) for n in names) and exc.cls in ("Exception", "BaseException", "OSError")):
                         # an abstract exception (from an opaque callee) may or may not match: fork
                         b = z3.Bool(fresh_name("exc_matches"))
                         qt, qf = self.fork(q, b, f"except L{h.lineno}")
